@@ -11,7 +11,11 @@ from . import core
 BUDGET = {
     'C01': (2500, 120000),
     'C02': (1500, 60000),
+    'C03': (700, 30000),
     'C06': (1200, 40000),
+    'C09': (1500, 60000),
+    'C10': (1500, 60000),
+    'C12': (1500, 60000),
     'C07': (700, 20000),
     # property: (quick cases, thorough cases)
     'C11': (1500, 40000),
